@@ -27,7 +27,13 @@ void __wrap_exit (int code)
 	__real_exit (code);
 }
 
-static void quiet (const char *m, void *d) { (void) d; if (!m) { fprintf (stderr, "FUZZ-FINDING: NULL log message\n"); abort (); } }
+static int saw_sos_msg = 0;
+static void quiet (const char *m, void *d)
+{
+	(void) d;
+	if (!m) { fprintf (stderr, "FUZZ-FINDING: NULL log message\n"); abort (); }
+	if (strstr (m, "SOS information")) saw_sos_msg = 1;
+}
 
 typedef struct { const uint8_t *data; size_t len, pos; } membuf;
 static char *mem_gets (char *s, int size, void *src)
@@ -108,7 +114,9 @@ static void check_problem (mpq_QSprob p, int solve)
 		free (cnt); free (beg); free (ind); mpq_EGlpNumFreeArray (val); mpq_EGlpNumFreeArray (rhs); mpq_EGlpNumFreeArray (rng); free (sense);
 		if (names) { for (i = 0; i < nr; i++) free (names[i]); free (names); }
 	}
-	if (mpq_QSwrite_prob (p, "/dev/null", "LP")) fail ("returned problem cannot be written as LP");
+	/* the LP format cannot carry SOS sets: that refusal (with its message) is the documented behaviour */
+	saw_sos_msg = 0;
+	if (mpq_QSwrite_prob (p, "/dev/null", "LP") && !saw_sos_msg) fail ("returned problem cannot be written as LP");
 	if (mpq_QSwrite_prob (p, "/dev/null", "MPS")) fail ("returned problem cannot be written as MPS");
 	if (solve && (long) nc * nr <= 400 && nc <= 40 && nr <= 40)
 	{
